@@ -22,7 +22,7 @@ def native_eq(a, b):
 
 # units of the memory path (accessors, translation, hub): the step-level claims use these functions by contract, so the
 # obligations that carry those claims below the contract boundary count for them as well
-ALSO_MEM = {'C18': ['safe.host', 'safe.escape', 'pre@callsite'], 'C19': ['frame'], 'C20': ['frame.own']}
+ALSO_MEM = {'C18': ['safe.host', 'safe.escape', 'pre@callsite'], 'C19': ['frame', 'post.priv'], 'C20': ['frame.own']}
 
 
 def own_frame(eng, what):
